@@ -59,4 +59,94 @@ Theorem C10_decided_token_end_column :
      token_line_length rs col d tok (f_sp f)).
 Proof. exact decided_token_end_column. Qed.
 
+(* THE CLAUSE "with the line width unconstrained, the indentation settings change nothing but the rendering of indentation" ON THE SEARCH
+   MODEL.  Two runs over the same lines and token types whose lengths (spaces, contents, whitespace units) are arbitrary and different:
+   if in each run max_line_length is at least an explicit bound on everything the search can measure (cpre / run_bounds: the widest
+   whitespace reachable plus the widest token times the number of decisions one physical line can hold), the solutions are EQUAL after
+   erasing the recorded lengths: same Break/Continue per token, same indentation and continuation COUNTS, same penalty, same child
+   solutions recursively - at every depth, with the child-line cache (keyed by a byte length, so a lookup may hit in one run and miss
+   in the other) and across both phases (the state invariants are re-established).  Proof: the search with its two over-length tests
+   removed (solve_inf, a proof device) does not depend on any length (simulation of the heap, the pruning table and the cache), and
+   under the bound the real search equals it.  run_bounds_of_check makes the bound checkable by computation for a given input. *)
+From PasfmtVerif Require Import Model.WrapContexts Model.WrapSearch Model.WrapFormat Proofs.WrapSearchProofs Proofs.WrapWidthFree Proofs.WrapSimProofs Proofs.WrapUnconstrainedProofs Proofs.WrapWidthIndependence Proofs.WrapOptimalityProofs.
+Theorem C10_search_width_independent :
+  forall (WA WB : wsettings) (lvsA lvsB : list lview) (fm : nat) (mA SWA LVA IBA CBA : N)
+    (spanA : nat -> N) (mB SWB LVB IBB CBB : N) (spanB : nat -> N),
+  w_iter WA = w_iter WB ->
+  w_bbb WA = w_bbb WB ->
+  Forall2 view_sim lvsA lvsB ->
+  run_bounds WA lvsA mA SWA LVA IBA CBA spanA ->
+  run_bounds WB lvsB mB SWB LVB IBB CBB spanB ->
+  forall (i : nat) (lvA lvB : lview) (k : nat) (stA stB : sst) (ws : N * N)
+    (fdA fdB : first_decision),
+  nth_error lvsA i = Some lvA ->
+  nth_error lvsB i = Some lvB ->
+  (length lvsA - i < k)%nat ->
+  fd_sim fdA fdB ->
+  sound WA lvsA fm stA ->
+  cache_bd WA lvsA mA IBA CBA spanA stA ->
+  sound WB lvsB fm stB ->
+  cache_bd WB lvsB mB IBB CBB spanB stB ->
+  cpre WA mA SWA LVA IBA CBA spanA k i ws fdA ->
+  cpre WB mB SWB LVB IBB CBB spanB k i ws fdB ->
+  option_map erase (snd (solve WA lvsA fm k stA lvA ws fdA)) =
+  option_map erase (snd (solve WB lvsB fm k stB lvB ws fdB)) /\
+  sound WA lvsA fm (fst (solve WA lvsA fm k stA lvA ws fdA)) /\
+  cache_bd WA lvsA mA IBA CBA spanA (fst (solve WA lvsA fm k stA lvA ws fdA)) /\
+  sound WB lvsB fm (fst (solve WB lvsB fm k stB lvB ws fdB)) /\
+  cache_bd WB lvsB mB IBB CBB spanB (fst (solve WB lvsB fm k stB lvB ws fdB)).
+Proof. exact solve_width_independent. Qed.
+
+Theorem C10_width_free_search_ignores_lengths :
+  forall (WA WB : wsettings) (infosA infosB : list tokinfo) (lines : list lline) (fm : nat),
+  w_iter WA = w_iter WB ->
+  w_bbb WA = w_bbb WB ->
+  parents_ok lines = true ->
+  map ti_ty infosA = map ti_ty infosB ->
+  forall (i : nat) (lvA lvB : lview) (dA dB : nat) (stA stB : sst) 
+    (ws : N * N) (fdA fdB : first_decision),
+  nth_error (mk_lviews infosA lines) i = Some lvA ->
+  nth_error (mk_lviews infosB lines) i = Some lvB ->
+  (length lines - i < dA)%nat ->
+  (length lines - i < dB)%nat ->
+  sound WA (mk_lviews infosA lines) fm stA ->
+  sound WB (mk_lviews infosB lines) fm stB ->
+  fd_sim fdA fdB ->
+  sound WA (mk_lviews infosA lines) fm
+    (fst (solve_inf WA (mk_lviews infosA lines) fm dA stA lvA ws fdA)) /\
+  sound WB (mk_lviews infosB lines) fm
+    (fst (solve_inf WB (mk_lviews infosB lines) fm dB stB lvB ws fdB)) /\
+  option_map erase (snd (solve_inf WA (mk_lviews infosA lines) fm dA stA lvA ws fdA)) =
+  option_map erase (snd (solve_inf WB (mk_lviews infosB lines) fm dB stB lvB ws fdB)).
+Proof. exact solve_inf_sim_views. Qed.
+
+Theorem C10_unconstrained_search_is_width_free :
+  forall (W : wsettings) (lvs : list lview) (fm : nat) (m SW LV IB CB : N) (span : nat -> N),
+  (forall (i : nat) (lv : lview) (r : trec),
+   nth_error lvs i = Some lv ->
+   In r (lv_recs lv) ->
+   tr_sp r + tr_len r <= m /\
+   (forall x : N, tr_ml r = Some x -> x <= m) /\ stack_weight (tr_stk r) <= SW) ->
+  (forall (i : nat) (lv : lview), nth_error lvs i = Some lv -> lv_level lv <= LV) ->
+  (forall (i : nat) (lv : lview),
+   nth_error lvs i = Some lv -> psum span (lv_recs lv) <= span i) ->
+  WrapDepthProofs.views_wf lvs ->
+  (forall (k : nat) (lv : lview), nth_error lvs k = Some lv -> view_fun lv) ->
+  forall (k : nat) (st : sst) (lv : lview) (j : nat) (ws : N * N) (fd : first_decision),
+  nth_error lvs j = Some lv ->
+  cache_bd W lvs m IB CB span st ->
+  cpre W m SW LV IB CB span k j ws fd ->
+  solve W lvs fm k st lv ws fd = solve_inf W lvs fm k st lv ws fd /\
+  cache_bd W lvs m IB CB span (fst (solve W lvs fm k st lv ws fd)) /\
+  cpost W m IB CB span j fd (snd (solve W lvs fm k st lv ws fd)).
+Proof. exact solve_unc. Qed.
+
+Theorem C10_bounds_from_check :
+  forall (W : wsettings) (infos : list tokinfo) (lines : list lline) 
+    (m SW LV IB CB : N) (spanl : list N),
+  parents_ok lines = true ->
+  bounds_check (mk_lviews infos lines) m SW LV spanl = true ->
+  run_bounds W (mk_lviews infos lines) m SW LV IB CB (fun k : nat => nth k spanl 0).
+Proof. exact run_bounds_of_check. Qed.
+
 
